@@ -85,7 +85,7 @@ def gen_emission(loader, check, kinds, replay_on=True, first=None):
     for cn in ("ArithmeticOp", "BitOp", "CompareOp", "BooleanOp", "Ternary"):
         c = irkit.C(loader, cn)
         check.under_contract(loader, c.methods["il_exec"], c.methods["__init__"])
-    bvk = [k for k in kinds if k in irkit.BV_KINDS]
+    bvk = [k for k in kinds if k in irkit.BV_KINDS or k in irkit.EXTRA_BV_KINDS]
     kinds1 = [k for k in kinds if first is None or k == first]
     bvk1 = [k for k in bvk if first is None or k == first]
 
@@ -463,7 +463,7 @@ def gen_task(loader, check, what, kinds=None, pairs=None, families=None, replay_
 
 
 def tasks_for(tier):
-    ek = ["Variable", "Number", "CompareOp", "BooleanOp", "Bool"] if tier == "quick" else irkit.ALL_KINDS
+    ek = ["Variable", "Number", "CastOfNumber", "CompareOp", "BooleanOp", "Bool"] if tier == "quick" else irkit.ALL_KINDS + irkit.EXTRA_BV_KINDS
     pairs = QUICK_PAIRS if tier == "quick" else [(a, b) for a in irkit.ALL_KINDS for b in irkit.ALL_KINDS]
     ts = [{"what": "emission", "kinds": ek, "first": k} for k in ek]
     for fam in ["arith", "bitw", "shift", "cmp", "logic", "unary", "cond"]:
